@@ -9,7 +9,7 @@
    reader count never wrapped, i.e. there were never 2^64 read guards at the same time. *)
 From Coq Require Import List ZArith.
 Import ListNotations.
-Require Import MayV.Sync.RwLockModel MayV.Sync.RwLockInv MayV.Sync.RwLockThm MayV.Sync.RwLockAccept MayV.Sync.RwLockExamples.
+Require Import MayV.Sync.RwLockModel MayV.Sync.RwLockInv MayV.Sync.RwLockThm MayV.Sync.RwLockPop MayV.Sync.RwLockAccept MayV.Sync.RwLockExamples.
 Require MayV.Sync.RwLockPreFix.
 
 (* (i) At most one actor owns write access (write guard under construction, held, or being dropped by a
@@ -64,17 +64,25 @@ Theorem C12_ii_try_write_succeeds_when_all_dropped :
 Proof. exact try_write_succeeds_when_all_dropped. Qed.
 Print Assumptions C12_ii_try_write_succeeds_when_all_dropped.
 
-(* (iii) No stranded reader / writer, quiescence form, PARTIAL: if no actor can take a step, no guard is
-   outstanding and nobody is stuck popping an empty waiter queue, then nobody is parked in lock(), nobody
-   waits for rlock, no guard drop is stuck: every actor is at rest (and by (ii) the lock is free).
-   Missing for the full statement: unreachability of the empty-queue pop (`expect("got null blocker!")`);
-   fairness of the scheduler (every enabled step is eventually taken) is assumed, as in C01. *)
-Theorem C12_iii_no_stranded_partial :
+(* (iii) The waiter queue is never empty when lock() / unlock() pop it: the `expect("got null blocker!")`
+   cannot fire - the hand-over chain never breaks, and no panic can happen while the rlock guard is
+   held (which is why rlock is never poisoned and read()'s `.expect("rwlock read")` cannot fire either). *)
+Theorem C12_iii_pop_never_empty :
+  forall p s a, Reach p s -> ovf s = false -> apc (A s a) = H1 -> q s <> [].
+Proof. exact pop_never_empty. Qed.
+Print Assumptions C12_iii_pop_never_empty.
+
+(* (iii) No stranded reader / writer, quiescence form (DESIGN 2.2): if no actor can take a step and no
+   guard is outstanding, then nobody is parked in lock(), nobody waits for rlock, no guard drop is stuck:
+   every actor is at rest (and by (ii) the lock is free).  With a fair scheduler (every enabled step is
+   eventually taken; assumed as in C01) this is "blocked readers and writers all eventually get the lock";
+   the termination measure of the hand-over chain is not part of this theorem. *)
+Theorem C12_iii_no_stranded_quiescent :
   forall p s, Reach p s -> ovf s = false ->
-  Stable s -> (forall a, apc (A s a) <> HoldW) -> (forall a, apc (A s a) <> HoldR) -> (forall a, apc (A s a) <> H1) ->
+  Stable s -> (forall a, apc (A s a) <> HoldW) -> (forall a, apc (A s a) <> HoldR) ->
   forall a, at_rest (apc (A s a)) = true.
-Proof. exact no_stranded_partial. Qed.
-Print Assumptions C12_iii_no_stranded_partial.
+Proof. exact no_stranded. Qed.
+Print Assumptions C12_iii_no_stranded_quiescent.
 
 (* Tie: every state along a trace of the real RwLock that the acceptor accepts is reachable, hence
    satisfies the theorems above. *)
